@@ -1,3 +1,629 @@
-use vh::runner::Ctx;
+//! C19 — time arithmetic is exact or None and never panics; monotonic clock and sleep hold.
+//!
+//! Oracle for the arithmetic: exact `i128` nanosecond arithmetic (`model_*` below). A time value
+//! is `s * 10^9 + n` nanoseconds, a Duration likewise; the result of an operation is `Some` of
+//! the normalised exact result, or `None` exactly when that result is negative or needs more
+//! than `i64::MAX` seconds.
+//!
+//! Values of the library are constructed through its public API only:
+//! `MonotonicInstant::ZERO.as_instant() + d` for `Instant`, `SystemTime::from(TimeSpec)` for
+//! `SystemTime`; results are read back through `AsRef<TimeSpec>` (Instant) or compared with a
+//! `SystemTime` constructed from the expected value (SystemTime has no accessor).
+//!
+//! Sub-checks
+//!   instant-exh / systime-exh   cross product of the boundary values (exact oracle)
+//!   instant-rand / systime-rand boundary-biased + relational random cases (exact oracle)
+//!   neg-exh / neg-rand          SystemTime with negative seconds down to i64::MIN: panic-freedom only
+//!   clock                       10^4 successive MonotonicInstant::now() never decrease; elapsed() brackets
+//!   sleep                       thread::sleep(d) returns Ok and no earlier than d, also when interrupted
+mod clock;
+mod sleep;
 
-pub fn run(_ctx: &Ctx) {}
+use core::cmp::Ordering;
+use core::fmt::Debug;
+use core::time::Duration;
+
+use proptest::prelude::*;
+use rusl::platform::TimeSpec;
+use serde::{Deserialize, Serialize};
+use tiny_std::time::{Instant, MonotonicInstant, SystemTime, UNIX_TIME};
+
+use vh::runner::{no_panic, CaseReport, CaseResult, Ctx, Failure};
+use vh::{ensure, fail};
+
+pub const NS: i128 = 1_000_000_000;
+/// Largest representable time value in nanoseconds: i64::MAX seconds and 10^9-1 nanoseconds.
+pub const MAX_T: i128 = (i64::MAX as i128) * NS + (NS - 1);
+/// Smallest representable time value (panic-freedom domain only).
+pub const MIN_T: i128 = (i64::MIN as i128) * NS;
+/// Largest Duration in nanoseconds.
+pub const MAX_D: i128 = (u64::MAX as i128) * NS + (NS - 1);
+/// "within 2 s of a representability edge"
+pub const EDGE: i128 = 2 * NS;
+
+/// A time value: `s` seconds and `n` nanoseconds (normalised: n < 10^9).
+#[derive(Debug, Clone, Copy, PartialEq, Eq, Serialize, Deserialize)]
+pub struct Tv {
+    pub s: i64,
+    pub n: u32,
+}
+
+/// A Duration: `s` seconds and `n` nanoseconds (n < 10^9).
+#[derive(Debug, Clone, Copy, PartialEq, Eq, Serialize, Deserialize)]
+pub struct Dv {
+    pub s: u64,
+    pub n: u32,
+}
+
+/// One arithmetic case: two time values and a duration.
+#[derive(Debug, Clone, Serialize, Deserialize)]
+pub struct Arith {
+    pub a: Tv,
+    pub b: Tv,
+    pub d: Dv,
+}
+
+// ---------------------------------------------------------------- reference model
+
+pub fn ns(t: Tv) -> i128 {
+    t.s as i128 * NS + t.n as i128
+}
+
+pub fn dns(d: Dv) -> i128 {
+    d.s as i128 * NS + d.n as i128
+}
+
+/// Exact value -> time value; None when negative or beyond i64::MAX seconds.
+pub fn to_tv(x: i128) -> Option<Tv> {
+    if !(0..=MAX_T).contains(&x) {
+        None
+    } else {
+        Some(Tv { s: (x / NS) as i64, n: (x % NS) as u32 })
+    }
+}
+
+/// Exact value -> Duration; None when negative (a difference of two time values at or after
+/// the epoch never exceeds i64::MAX seconds, so there is no upper edge here).
+pub fn to_dv(x: i128) -> Option<Dv> {
+    if !(0..=MAX_D).contains(&x) {
+        None
+    } else {
+        Some(Dv { s: (x / NS) as u64, n: (x % NS) as u32 })
+    }
+}
+
+pub fn model_add(a: Tv, d: Dv) -> Option<Tv> {
+    to_tv(ns(a) + dns(d))
+}
+
+pub fn model_sub(a: Tv, d: Dv) -> Option<Tv> {
+    to_tv(ns(a) - dns(d))
+}
+
+pub fn model_diff(a: Tv, b: Tv) -> Option<Dv> {
+    to_dv(ns(a) - ns(b))
+}
+
+fn dur(d: Dv) -> Duration {
+    Duration::new(d.s, d.n)
+}
+
+fn dv_of(d: Duration) -> Dv {
+    Dv { s: d.as_secs(), n: d.subsec_nanos() }
+}
+
+// ---------------------------------------------------------------- the two types under one interface
+
+pub trait TimeVal: Copy + Eq + Ord + Debug {
+    const NAME: &'static str;
+    /// Build the value through the public API.
+    fn make(t: Tv) -> Result<Self, Failure>;
+    fn add(self, d: Duration) -> Option<Self>;
+    fn sub(self, d: Duration) -> Option<Self>;
+    fn diff(self, o: Self) -> Option<Duration>;
+    fn since(self, o: Self) -> Option<Duration>;
+    /// Does the value equal the (normalised) time value `t`?
+    fn same(&self, t: Tv) -> bool;
+    fn show(&self) -> String;
+    /// Type-specific additional exact checks on a value of the exact domain.
+    fn extra(self, _t: Tv, _rep: &mut CaseReport) -> Result<(), Failure> {
+        Ok(())
+    }
+}
+
+impl TimeVal for Instant {
+    const NAME: &'static str = "Instant";
+    fn make(t: Tv) -> Result<Self, Failure> {
+        // the only public way to an arbitrary Instant: ZERO + d (0 + d = d, always representable
+        // for d <= i64::MAX s)
+        let d = Duration::new(t.s as u64, t.n);
+        let got = no_panic("Instant+Duration", || MonotonicInstant::ZERO.as_instant() + d)?;
+        match got {
+            Some(i) if i.same(t) => Ok(i),
+            Some(i) => fail!("Instant+Duration|wrong-value|from ZERO", "ZERO.as_instant() + {:?} = {}, expected {:?}", d, i.show(), t),
+            None => fail!("Instant+Duration|none-for-representable|from ZERO", "ZERO.as_instant() + {:?} = None, expected {:?}", d, t),
+        }
+    }
+    fn add(self, d: Duration) -> Option<Self> {
+        self + d
+    }
+    fn sub(self, d: Duration) -> Option<Self> {
+        self - d
+    }
+    fn diff(self, o: Self) -> Option<Duration> {
+        self - o
+    }
+    fn since(self, o: Self) -> Option<Duration> {
+        self.duration_since(o)
+    }
+    fn same(&self, t: Tv) -> bool {
+        let ts: &TimeSpec = self.as_ref();
+        ts.seconds() == t.s && ts.nanoseconds() == t.n as i64
+    }
+    fn show(&self) -> String {
+        let ts: &TimeSpec = self.as_ref();
+        format!("Instant{{s:{},n:{}}}", ts.seconds(), ts.nanoseconds())
+    }
+}
+
+impl TimeVal for SystemTime {
+    const NAME: &'static str = "SystemTime";
+    fn make(t: Tv) -> Result<Self, Failure> {
+        Ok(SystemTime::from(TimeSpec::new(t.s, t.n as i64)))
+    }
+    fn add(self, d: Duration) -> Option<Self> {
+        self + d
+    }
+    fn sub(self, d: Duration) -> Option<Self> {
+        self - d
+    }
+    fn diff(self, o: Self) -> Option<Duration> {
+        self - o
+    }
+    fn since(self, o: Self) -> Option<Duration> {
+        self.duration_since(o)
+    }
+    fn same(&self, t: Tv) -> bool {
+        *self == SystemTime::from(TimeSpec::new(t.s, t.n as i64))
+    }
+    fn show(&self) -> String {
+        format!("{self:?}")
+    }
+    fn extra(self, t: Tv, rep: &mut CaseReport) -> Result<(), Failure> {
+        // differencing with the epoch
+        let exp = Dv { s: t.s as u64, n: t.n };
+        let got = no_panic("SystemTime::duration_since_unix_time", || self.duration_since_unix_time())?;
+        ensure!(dv_of(got) == exp, "SystemTime::duration_since_unix_time|wrong-value", "{:?}.duration_since_unix_time() = {:?}, expected {:?}", t, got, exp);
+        let got = no_panic("SystemTime-SystemTime", || self - UNIX_TIME)?;
+        ensure!(got.map(dv_of) == Some(exp), "SystemTime-SystemTime|wrong-value|minus UNIX_TIME", "{:?} - UNIX_TIME = {:?}, expected Some({:?})", t, got, exp);
+        let got = no_panic("SystemTime-SystemTime", || UNIX_TIME - self)?;
+        let exp_rev = if ns(t) == 0 { Some(Dv { s: 0, n: 0 }) } else { None };
+        ensure!(got.map(dv_of) == exp_rev, "SystemTime-SystemTime|wrong-value|UNIX_TIME minus", "UNIX_TIME - {:?} = {:?}, expected {:?}", t, got, exp_rev);
+        rep.class("epoch-diff");
+        Ok(())
+    }
+}
+
+// ---------------------------------------------------------------- exact check
+
+fn cmp_time<T: TimeVal>(op: &str, shape: &str, expr: &str, got: Option<T>, exp: Option<Tv>) -> Result<(), Failure> {
+    match (got, exp) {
+        (None, None) => Ok(()),
+        (Some(g), Some(e)) => {
+            ensure!(g.same(e), format!("{op}|wrong-value|{shape}"), "{expr} = Some({}), expected Some({:?})", g.show(), e);
+            Ok(())
+        }
+        (Some(g), None) => fail!(format!("{op}|some-for-unrepresentable|{shape}"), "{expr} = Some({}), expected None (exact result negative or beyond i64::MAX seconds)", g.show()),
+        (None, Some(e)) => fail!(format!("{op}|none-for-representable|{shape}"), "{expr} = None, expected Some({:?})", e),
+    }
+}
+
+fn cmp_dur(op: &str, shape: &str, expr: &str, got: Option<Duration>, exp: Option<Dv>) -> Result<(), Failure> {
+    match (got, exp) {
+        (None, None) => Ok(()),
+        (Some(g), Some(e)) => {
+            ensure!(dv_of(g) == e, format!("{op}|wrong-value|{shape}"), "{expr} = Some({:?}), expected Some({:?})", g, e);
+            Ok(())
+        }
+        (Some(g), None) => fail!(format!("{op}|some-for-unrepresentable|{shape}"), "{expr} = Some({:?}), expected None (exact result negative)", g),
+        (None, Some(e)) => fail!(format!("{op}|none-for-representable|{shape}"), "{expr} = None, expected Some({:?})", e),
+    }
+}
+
+fn in_exact_domain(c: &Arith) -> bool {
+    c.a.s >= 0 && c.b.s >= 0 && c.a.n < NS as u32 && c.b.n < NS as u32 && c.d.n < NS as u32
+}
+
+pub fn check_exact<T: TimeVal>(c: &Arith) -> CaseResult {
+    let mut rep = CaseReport::new();
+    if !in_exact_domain(c) {
+        // hand-written replay outside the stated domain: nothing is claimed
+        rep.class("outside-domain-skipped");
+        return Ok(rep);
+    }
+    let ty = T::NAME;
+    let (ta, tb, td) = (c.a, c.b, c.d);
+    let a = T::make(ta)?;
+    let b = T::make(tb)?;
+    let d = dur(td);
+    let mut nontrivial = false;
+
+    // ---- t + d
+    {
+        let op = format!("{ty}+Duration");
+        let carry = ta.n as u64 + td.n as u64 >= NS as u64;
+        let shape = if carry { "nanos carry" } else { "no carry" };
+        let exact = ns(ta) + dns(td);
+        let exp = model_add(ta, td);
+        let got = no_panic(&op, || a.add(d))?;
+        cmp_time(&op, shape, &format!("{ta:?} + {td:?}"), got, exp)?;
+        if let Some(s) = got {
+            // round trips and order
+            let rt = format!("{ty} (t+d)-d");
+            let back = no_panic(&rt, || s.sub(d))?;
+            cmp_time(&rt, shape, &format!("({ta:?} + {td:?}) - {td:?}"), back, Some(ta)).map_err(|f| relabel(f, "round-trip"))?;
+            let rt = format!("{ty} (t+d)-t");
+            let back = no_panic(&rt, || s.diff(a))?;
+            cmp_dur(&rt, shape, &format!("({ta:?} + {td:?}) - {ta:?}"), back, Some(td)).map_err(|f| relabel(f, "round-trip"))?;
+            let back = no_panic(&rt, || s.since(a))?;
+            cmp_dur(&rt, shape, &format!("({ta:?} + {td:?}).duration_since({ta:?})"), back, Some(td)).map_err(|f| relabel(f, "round-trip"))?;
+            let exp_ord = if dns(td) == 0 { Ordering::Equal } else { Ordering::Greater };
+            let o = no_panic(&format!("{ty}::cmp"), || s.cmp(&a))?;
+            ensure!(o == exp_ord, format!("{ty}::cmp|wrong-order|t+d against t"), "({ta:?} + {td:?}).cmp({ta:?}) = {o:?}, expected {exp_ord:?}");
+        }
+        rep.class(if carry { "add-carry" } else { "add-no-carry" });
+        rep.class_if(carry && (ta.n as u64 + td.n as u64 == NS as u64), "add-carry-to-zero-nanos");
+        rep.class_if(exp.is_none(), "add-none-overflow");
+        rep.class_if(exp.is_some() && MAX_T - exact < EDGE, "add-some-within-2s-of-edge");
+        rep.class_if(exp.is_none() && exact - MAX_T <= EDGE, "add-none-within-2s-of-edge");
+        rep.class_if(exact == MAX_T, "add-exactly-max");
+        rep.class_if(exact == MAX_T + 1, "add-exactly-max-plus-1ns");
+        rep.class_if(td.s > i64::MAX as u64, "add-dsecs-above-i64");
+        rep.class_if(td.s == u64::MAX && carry, "add-dsecs-u64max-with-carry");
+        rep.class_if(carry && ta.s as i128 + td.s as i128 == i64::MAX as i128, "add-none-only-by-carry");
+        nontrivial |= carry || (exact - MAX_T).abs() <= EDGE;
+    }
+
+    // ---- t - d
+    {
+        let op = format!("{ty}-Duration");
+        let borrow = ta.n < td.n;
+        let shape = if borrow { "nanos borrow" } else { "no borrow" };
+        let exact = ns(ta) - dns(td);
+        let exp = model_sub(ta, td);
+        let got = no_panic(&op, || a.sub(d))?;
+        cmp_time(&op, shape, &format!("{ta:?} - {td:?}"), got, exp)?;
+        if let Some(r) = got {
+            let rt = format!("{ty} (t-d)+d");
+            let back = no_panic(&rt, || r.add(d))?;
+            cmp_time(&rt, shape, &format!("({ta:?} - {td:?}) + {td:?}"), back, Some(ta)).map_err(|f| relabel(f, "round-trip"))?;
+            let rt = format!("{ty} t-(t-d)");
+            let back = no_panic(&rt, || a.diff(r))?;
+            cmp_dur(&rt, shape, &format!("{ta:?} - ({ta:?} - {td:?})"), back, Some(td)).map_err(|f| relabel(f, "round-trip"))?;
+            let exp_ord = if dns(td) == 0 { Ordering::Equal } else { Ordering::Less };
+            let o = no_panic(&format!("{ty}::cmp"), || r.cmp(&a))?;
+            ensure!(o == exp_ord, format!("{ty}::cmp|wrong-order|t-d against t"), "({ta:?} - {td:?}).cmp({ta:?}) = {o:?}, expected {exp_ord:?}");
+        }
+        rep.class(if borrow { "sub-borrow" } else { "sub-no-borrow" });
+        rep.class_if(exp.is_none(), "sub-none-negative");
+        rep.class_if(exact == 0, "sub-exactly-zero");
+        rep.class_if(exact == -1, "sub-exactly-minus-1ns");
+        rep.class_if(exp.is_some() && exact < EDGE, "sub-some-within-2s-of-edge");
+        rep.class_if(exp.is_none() && -exact <= EDGE, "sub-none-within-2s-of-edge");
+        rep.class_if(borrow && ta.s as i128 == td.s as i128, "sub-none-only-by-borrow");
+        rep.class_if(td.s > i64::MAX as u64, "sub-dsecs-above-i64");
+        rep.class_if(td.s == u64::MAX && borrow, "sub-dsecs-u64max-with-borrow");
+        nontrivial |= borrow || exact.abs() <= EDGE;
+    }
+
+    // ---- t - u, both directions, both spellings
+    for (x, y, tx, tyv) in [(a, b, ta, tb), (b, a, tb, ta)] {
+        let borrow = tx.n < tyv.n;
+        let shape = if borrow { "nanos borrow" } else { "no borrow" };
+        let exp = model_diff(tx, tyv);
+        let op = format!("{ty}-{ty}");
+        let got = no_panic(&op, || x.diff(y))?;
+        cmp_dur(&op, shape, &format!("{tx:?} - {tyv:?}"), got, exp)?;
+        let op2 = format!("{ty}::duration_since");
+        let got2 = no_panic(&op2, || x.since(y))?;
+        cmp_dur(&op2, shape, &format!("{tx:?}.duration_since({tyv:?})"), got2, exp)?;
+        if let Some(df) = got {
+            let rt = format!("{ty} u+(t-u)");
+            let back = no_panic(&rt, || y.add(df))?;
+            cmp_time(&rt, shape, &format!("{tyv:?} + ({tx:?} - {tyv:?})"), back, Some(tx)).map_err(|f| relabel(f, "round-trip"))?;
+            let rt = format!("{ty} t-(t-u)");
+            let back = no_panic(&rt, || x.sub(df))?;
+            cmp_time(&rt, shape, &format!("{tx:?} - ({tx:?} - {tyv:?})"), back, Some(tyv)).map_err(|f| relabel(f, "round-trip"))?;
+        }
+        // ordering agrees with subtraction: x < y  <=>  (y - x) is Some(non-zero)
+        let lt = no_panic(&format!("{ty}::lt"), || y < x)?;
+        let by_sub = matches!(got, Some(df) if !df.is_zero());
+        ensure!(lt == by_sub, format!("{ty}::lt|disagrees-with-subtraction|{}", if tx.s == tyv.s { "equal seconds" } else { "different seconds" }), "({tyv:?} < {tx:?}) = {lt}, but {tx:?} - {tyv:?} = {got:?}");
+        let exact = ns(tx) - ns(tyv);
+        rep.class_if(borrow && exp.is_some(), "diff-borrow");
+        rep.class_if(exp.is_none(), "diff-none-negative");
+        rep.class_if(exact == 0, "diff-zero");
+        rep.class_if(exact.abs() <= EDGE && exact != 0, "diff-within-2s-of-zero");
+        rep.class_if(exact >= MAX_T - EDGE, "diff-within-2s-of-max");
+        rep.class_if(tx.s == tyv.s && tx.n != tyv.n, "diff-same-seconds");
+        nontrivial |= (borrow && exp.is_some()) || exact.abs() <= EDGE || exact.abs() >= MAX_T - EDGE;
+    }
+
+    // ---- ordering against the model
+    {
+        let exp = ns(ta).cmp(&ns(tb));
+        let shape = if ta.s == tb.s { "equal seconds" } else { "different seconds" };
+        let got = no_panic(&format!("{ty}::cmp"), || a.cmp(&b))?;
+        ensure!(got == exp, format!("{ty}::cmp|wrong-order|{shape}"), "{ta:?}.cmp({tb:?}) = {got:?}, expected {exp:?}");
+        let got = no_panic(&format!("{ty}::partial_cmp"), || a.partial_cmp(&b))?;
+        ensure!(got == Some(exp), format!("{ty}::partial_cmp|wrong-order|{shape}"), "{ta:?}.partial_cmp({tb:?}) = {got:?}, expected Some({exp:?})");
+        let got = no_panic(&format!("{ty}::eq"), || a == b)?;
+        ensure!(got == (exp == Ordering::Equal), format!("{ty}::eq|wrong-answer|{shape}"), "({ta:?} == {tb:?}) = {got}, expected {}", exp == Ordering::Equal);
+        rep.class(match exp {
+            Ordering::Less => "ord-less",
+            Ordering::Equal => "ord-equal",
+            Ordering::Greater => "ord-greater",
+        });
+    }
+
+    a.extra(ta, &mut rep)?;
+    rep.nontrivial_if(nontrivial);
+    Ok(rep)
+}
+
+/// Round-trip failures get their own failure class (the single operations already have theirs).
+fn relabel(mut f: Failure, class: &str) -> Failure {
+    let mut parts: Vec<String> = f.sig.split('|').map(|s| s.to_string()).collect();
+    if parts.len() >= 2 && parts[1] != "panic" {
+        parts[1] = format!("{class}:{}", parts[1]);
+    }
+    f.sig = parts.join("|");
+    f
+}
+
+// ---------------------------------------------------------------- panic-freedom only (negative seconds)
+
+fn in_nopanic_domain(c: &Arith) -> bool {
+    c.a.n < NS as u32 && c.b.n < NS as u32 && c.d.n < NS as u32
+}
+
+/// SystemTime values with seconds anywhere in i64: every operation must return (any value)
+/// without panicking. No exactness is claimed here.
+pub fn check_nopanic(c: &Arith) -> CaseResult {
+    let mut rep = CaseReport::new();
+    if !in_nopanic_domain(c) {
+        rep.class("outside-domain-skipped");
+        return Ok(rep);
+    }
+    let (ta, tb, td) = (c.a, c.b, c.d);
+    let a = SystemTime::from(TimeSpec::new(ta.s, ta.n as i64));
+    let b = SystemTime::from(TimeSpec::new(tb.s, tb.n as i64));
+    let d = dur(td);
+    for (x, y) in [(a, b), (b, a)] {
+        let s = no_panic("SystemTime+Duration", || x + d)?;
+        let r = no_panic("SystemTime-Duration", || x - d)?;
+        let df = no_panic("SystemTime-SystemTime", || x - y)?;
+        let _ = no_panic("SystemTime::duration_since", || x.duration_since(y))?;
+        let _ = no_panic("SystemTime::duration_since_unix_time", || x.duration_since_unix_time())?;
+        let _ = no_panic("SystemTime-SystemTime", || (x - UNIX_TIME, UNIX_TIME - x))?;
+        let _ = no_panic("SystemTime::cmp", || (x.cmp(&y), x == y, x < y))?;
+        // follow-ups on whatever came back
+        if let Some(s) = s {
+            let _ = no_panic("SystemTime-Duration", || s - d)?;
+            let _ = no_panic("SystemTime-SystemTime", || (s - x, x - s))?;
+        }
+        if let Some(r) = r {
+            let _ = no_panic("SystemTime+Duration", || r + d)?;
+            let _ = no_panic("SystemTime-SystemTime", || (x - r, r - x))?;
+        }
+        if let Some(df) = df {
+            let _ = no_panic("SystemTime+Duration", || y + df)?;
+            let _ = no_panic("SystemTime-Duration", || x - df)?;
+        }
+    }
+    let neg_a = ta.s < 0;
+    let neg_b = tb.s < 0;
+    let sdiff = (ta.s as i128 - tb.s as i128).abs();
+    let below_min = ns(ta) - dns(td) < MIN_T || ns(tb) - dns(td) < MIN_T;
+    let near_min = (ns(ta) - dns(td) - MIN_T).abs() <= EDGE || (ns(tb) - dns(td) - MIN_T).abs() <= EDGE;
+    let near_zero = (ns(ta) + dns(td)).abs() <= EDGE || (ns(tb) + dns(td)).abs() <= EDGE;
+    let carry = ta.n as u64 + td.n as u64 >= NS as u64 || ta.n < td.n || ta.n != tb.n;
+    rep.class_if(neg_a && neg_b, "both-negative");
+    rep.class_if(neg_a != neg_b, "mixed-sign");
+    rep.class_if(ta.s == i64::MIN || tb.s == i64::MIN, "secs-i64min");
+    rep.class_if(sdiff > i64::MAX as i128, "secs-difference-exceeds-i64");
+    rep.class_if(sdiff == i64::MAX as i128 + 1 && ((ta.s < tb.s && ta.n < tb.n) || (tb.s < ta.s && tb.n < ta.n)), "secs-difference-i64min-with-borrow");
+    rep.class_if(below_min, "sub-below-i64min");
+    rep.class_if(near_min, "sub-within-2s-of-i64min");
+    rep.class_if(near_zero, "add-crosses-zero-within-2s");
+    rep.class_if(td.s > i64::MAX as u64, "dsecs-above-i64");
+    rep.nontrivial_if((neg_a || neg_b) && (carry || near_min || near_zero || below_min || sdiff > i64::MAX as i128 - 2));
+    Ok(rep)
+}
+
+// ---------------------------------------------------------------- generators
+
+pub const SEC_T: [i64; 7] = [0, 1, 2, 1_000_000_000, i64::MAX - 2, i64::MAX - 1, i64::MAX];
+pub const SEC_NEG: [i64; 6] = [i64::MIN, i64::MIN + 1, i64::MIN + 2, -1_000_000_000, -2, -1];
+pub const NANO_B: [u32; 5] = [0, 1, 2, 999_999_998, 999_999_999];
+pub const SEC_D: [u64; 12] = [
+    0,
+    1,
+    2,
+    1_000_000_000,
+    i64::MAX as u64 - 2,
+    i64::MAX as u64 - 1,
+    i64::MAX as u64,
+    i64::MAX as u64 + 1,
+    i64::MAX as u64 + 2,
+    u64::MAX - 2,
+    u64::MAX - 1,
+    u64::MAX,
+];
+const SPAN: i64 = 4_000_000_000;
+
+fn nano() -> impl Strategy<Value = u32> {
+    prop_oneof![
+        3 => prop::sample::select(NANO_B.to_vec()),
+        1 => Just(500_000_000u32),
+        4 => 0u32..1_000_000_000,
+    ]
+}
+
+fn sec_t() -> impl Strategy<Value = i64> {
+    prop_oneof![
+        4 => prop::sample::select(SEC_T.to_vec()),
+        2 => 0i64..=i64::MAX,
+        1 => 0i64..=SPAN,
+        1 => (i64::MAX - SPAN)..=i64::MAX,
+    ]
+}
+
+fn sec_neg() -> impl Strategy<Value = i64> {
+    prop_oneof![
+        4 => prop::sample::select(SEC_NEG.to_vec()),
+        2 => i64::MIN..0i64,
+        1 => -SPAN..0i64,
+        1 => i64::MIN..=(i64::MIN + SPAN),
+    ]
+}
+
+fn sec_d() -> impl Strategy<Value = u64> {
+    prop_oneof![
+        4 => prop::sample::select(SEC_D.to_vec()),
+        2 => any::<u64>(),
+        1 => 0u64..=SPAN as u64,
+        1 => (i64::MAX as u64 - SPAN as u64)..=(i64::MAX as u64 + SPAN as u64),
+        1 => (u64::MAX - SPAN as u64)..=u64::MAX,
+    ]
+}
+
+fn tv() -> impl Strategy<Value = Tv> {
+    (sec_t(), nano()).prop_map(|(s, n)| Tv { s, n })
+}
+
+fn dv() -> impl Strategy<Value = Dv> {
+    (sec_d(), nano()).prop_map(|(s, n)| Dv { s, n })
+}
+
+/// offsets of at most 2 s around an edge, biased to the interesting ones
+fn delta() -> impl Strategy<Value = i128> {
+    prop_oneof![
+        3 => prop::sample::select(vec![-2_000_000_000i64, -1_000_000_001, -1_000_000_000, -999_999_999, -2, -1, 0, 1, 2, 999_999_999, 1_000_000_000, 1_000_000_001, 2_000_000_000]),
+        2 => -2_000_000_000i64..=2_000_000_000,
+    ]
+    .prop_map(|x| x as i128)
+}
+
+fn clamp_tv(x: i128) -> Tv {
+    to_tv(x.clamp(0, MAX_T)).unwrap()
+}
+
+fn clamp_dv(x: i128) -> Dv {
+    to_dv(x.clamp(0, MAX_D)).unwrap()
+}
+
+fn clamp_any_tv(x: i128) -> Tv {
+    let x = x.clamp(MIN_T, MAX_T);
+    let s = x.div_euclid(NS);
+    Tv { s: s as i64, n: x.rem_euclid(NS) as u32 }
+}
+
+/// Stratified: 2/8 independent boundary-biased values; the rest places one operand relative to
+/// another so that the result lands within 2 s of a representability edge, operands are nearly
+/// equal, or the nanoseconds meet exactly.
+fn arith_exact() -> impl Strategy<Value = Arith> {
+    (tv(), tv(), dv(), 0u8..8, delta(), delta()).prop_map(|(a, mut b, mut d, mode, d1, d2)| {
+        match mode {
+            0 | 1 => {}
+            2 => d = clamp_dv(MAX_T + 1 - ns(a) + d1), // a + d = MAX_T + 1 + d1
+            3 => d = clamp_dv(ns(a) + d1),             // a - d = -d1
+            4 => b = clamp_tv(ns(a) + d1),             // nearly equal pair
+            5 => {
+                b = clamp_tv(ns(a) + d1);
+                d = clamp_dv(ns(a) + d2);
+            }
+            6 => {
+                // nanoseconds add up to exactly one second; pair with equal nanoseconds
+                d.n = (NS as u32 - a.n) % NS as u32;
+                b.n = a.n;
+            }
+            _ => {
+                // subtraction leaves zero nanoseconds; pair in the same second
+                d.n = a.n;
+                b.s = a.s;
+            }
+        }
+        Arith { a, b, d }
+    })
+}
+
+fn arith_neg() -> impl Strategy<Value = Arith> {
+    (sec_neg(), nano(), prop_oneof![1 => sec_neg(), 1 => sec_t()], nano(), dv(), 0u8..6, delta(), -2i64..=2).prop_map(|(sa, na, sb, nb, mut d, mode, d1, k)| {
+        let a = Tv { s: sa, n: na };
+        let mut b = Tv { s: sb, n: nb };
+        match mode {
+            0 | 1 => {}
+            2 => d = clamp_dv(ns(a) - MIN_T + d1), // a - d = MIN_T - d1
+            3 => d = clamp_dv(-ns(a) + d1),        // a + d = d1
+            4 => b.s = (a.s as i128 + i64::MAX as i128 + k as i128).clamp(i64::MIN as i128, i64::MAX as i128) as i64, // b.s - a.s around i64::MAX
+            _ => b = clamp_any_tv(ns(a) + d1),
+        }
+        Arith { a, b, d }
+    })
+}
+
+// ---------------------------------------------------------------- driver
+
+fn exhaustive(ctx: &Ctx, name: &str, asecs: &[i64], bsecs: &[i64], f: impl Fn(&Arith) -> CaseResult) {
+    if ctx.is_replay() {
+        if let Some(c) = ctx.replay_case::<Arith>(name) {
+            ctx.run_one(name, &c, || f(&c));
+        }
+        return;
+    }
+    let mut idx = 0usize;
+    let mut total = 0usize;
+    for &sa in asecs {
+        for &na in &NANO_B {
+            for &sb in bsecs {
+                for &nb in &NANO_B {
+                    for &sd in &SEC_D {
+                        for &nd in &NANO_B {
+                            total += 1;
+                            let mine = idx % ctx.nworkers as usize == ctx.worker as usize;
+                            idx += 1;
+                            if !mine {
+                                continue;
+                            }
+                            let c = Arith { a: Tv { s: sa, n: na }, b: Tv { s: sb, n: nb }, d: Dv { s: sd, n: nd } };
+                            if !ctx.run_one(name, &c, || f(&c)) {
+                                return;
+                            }
+                        }
+                    }
+                }
+            }
+        }
+    }
+    ctx.note_exhaustive(format!(
+        "{name}: all {total} triples (a, b, d) with a.s in {asecs:?}, b.s in {bsecs:?}, d.s in {SEC_D:?} and every nanosecond field in {NANO_B:?}"
+    ));
+}
+
+pub fn run(ctx: &Ctx) {
+    // (1) boundary cross products
+    exhaustive(ctx, "instant-exh", &SEC_T, &SEC_T, check_exact::<Instant>);
+    exhaustive(ctx, "systime-exh", &SEC_T, &SEC_T, check_exact::<SystemTime>);
+    let all: Vec<i64> = SEC_NEG.iter().chain(SEC_T.iter()).copied().collect();
+    exhaustive(ctx, "neg-exh", &SEC_NEG, &all, check_nopanic);
+
+    // (2) random, stratified
+    ctx.run_prop("instant-rand", ctx.cases(100_000, 1_500_000), arith_exact(), check_exact::<Instant>);
+    ctx.run_prop("systime-rand", ctx.cases(100_000, 1_500_000), arith_exact(), check_exact::<SystemTime>);
+    ctx.run_prop("neg-rand", ctx.cases(60_000, 1_000_000), arith_neg(), check_nopanic);
+
+    // (3) clock and sleep
+    clock::run(ctx);
+    sleep::run(ctx);
+}
